@@ -328,6 +328,34 @@ fn near_misses(key: &str, ident: &str, rng: &mut Rng) -> String {
         ident.to_lowercase(),
         format!("{key}_"),
         format!("_{key}"),
+        format!(" {key}"),
+        format!("{key} "),
+        format!("{key}\t"),
+        format!("{key}x"),
+        key.chars().take(key.chars().count().saturating_sub(1)).collect::<String>(),
+        key.chars().skip(1).collect::<String>(),
+        key.replace('_', "-"),
+        key.replace('_', ""),
+        {
+            // snake_case of a camelCase key
+            let mut s = String::new();
+            for c in key.chars() {
+                if c.is_uppercase() && !s.is_empty() {
+                    s.push('_');
+                }
+                s.extend(c.to_lowercase());
+            }
+            s
+        },
+        {
+            // two adjacent characters swapped
+            let mut cs: Vec<char> = key.chars().collect();
+            if cs.len() >= 2 {
+                let i = rng.below(cs.len() - 1);
+                cs.swap(i, i + 1);
+            }
+            cs.into_iter().collect()
+        },
         {
             // one edit
             let mut cs: Vec<char> = key.chars().collect();
